@@ -32,8 +32,8 @@ manifest = {
     'version': 1,
     'setup_cmd': './setup.sh',
     'hooks': {
-        'guard': '--cfg shapefile_rs_verif (reserved; no source hooks were needed: every observation point is at the public API boundary)',
-        'enable': 'none needed - the harness links the unmodified library and passes its own instrumented Read/Write/Seek objects, panic hook and counting allocator',
+        'guard': 'shapefile_rs_verif',
+        'enable': 'RUSTFLAGS="--cfg shapefile_rs_verif" would enable hooks, but none exist: every observation point is at the public API boundary (the harness links the unmodified library and passes its own instrumented Read/Write/Seek objects, panic hook and counting allocator), so source_commits is empty',
         'baseline_off_cmd': 'cd /repo && cargo test --workspace --no-fail-fast --offline',
         'source_commits': [],
         'add_only': True,
